@@ -132,6 +132,12 @@ func Worker(p *Property, tier Tier, seed uint64, w, W int, hashFirst int, maxInd
 	start := time.Now()
 	res := &WorkerResult{Stats: NewStats(), RunHashes: map[string]uint64{}, PerBatch: map[string]int{}}
 	budget := Budget(tier)
+	vd := os.Getenv("VERIF_DIR")
+	if vd == "" {
+		vd = "/verif"
+	}
+	findings := LoadFindings(filepath.Join(vd, "known_findings.json"))
+	knownSeen := map[string]bool{}
 	// Per-run watchdog.
 	type cur struct {
 		sc *Scenario
@@ -169,7 +175,12 @@ func Worker(p *Property, tier Tier, seed uint64, w, W int, hashFirst int, maxInd
 				break
 			}
 			rs := RunSeed(seed, p.ID, b.Name, i)
-			sc := b.Engine.Generate(NewRand(rs), tier)
+			var sc *Scenario
+			if ig, ok := b.Engine.(IndexedGenerator); ok {
+				sc = ig.GenerateIndexed(i, n, NewRand(rs), tier)
+			} else {
+				sc = b.Engine.Generate(NewRand(rs), tier)
+			}
 			sc.Property, sc.Batch, sc.Seed = p.ID, b.Name, rs
 			curCh <- &cur{sc: sc, t: time.Now()}
 			st := NewStats()
@@ -196,6 +207,15 @@ func Worker(p *Property, tier Tier, seed uint64, w, W int, hashFirst int, maxInd
 			res.Stats.Merge(st)
 			if v != nil {
 				v.Property = p.ID
+				if MatchKnown(findings, v) != nil {
+					// Known findings are reported once and do not stop the exploration.
+					res.Stats.Inc("known_finding_hits." + v.Fingerprint)
+					if !knownSeen[v.Fingerprint] {
+						knownSeen[v.Fingerprint] = true
+						res.Violations = append(res.Violations, &FoundViolation{Violation: v, Scenario: sc, RunIndex: i})
+					}
+					continue
+				}
 				res.Violations = append(res.Violations, &FoundViolation{Violation: v, Scenario: sc, RunIndex: i})
 				nv++
 				if nv >= 3 {
@@ -383,7 +403,7 @@ func RunCheck(p *Property, cfg CheckConfig) int {
 			"--hash-first", fmt.Sprint(hashFirst), "--out", out)
 		cmd.Stderr = os.Stderr
 		cmd.Stdout = os.Stderr
-		cmd.Env = append(os.Environ(), "VERIF_SCRATCH="+filepath.Join(tmp, fmt.Sprintf("s%d", w)))
+		cmd.Env = append(os.Environ(), "VERIF_DIR="+cfg.VerifDir, "VERIF_SCRATCH="+filepath.Join(tmp, fmt.Sprintf("s%d", w)))
 		if err := cmd.Start(); err != nil {
 			fmt.Fprintln(os.Stderr, "HARNESS: cannot start worker:", err)
 			return 2
